@@ -228,6 +228,21 @@ pub fn exec_catchup(case: &CatchupCase, tally: &mut Tally) -> Result<(), Failure
             }
             tally.label("follow_up_gossip");
         }
+        // The copy's own tombstone GC after the grace period must not lower the frontier either
+        // (a supplied state may carry tombstones at or below the copy's watermark).
+        {
+            let pre = n.node_state(&xr).map(read_spec);
+            advance_ns(3_600_000_000_000 + 1).await;
+            if let Err(p) = guard(|| n.verif_gc_keys_marked_for_deletion()) {
+                return vio(&format!("C18/{}", p.signature()), format!("key GC after a catch-up call panicked: {}", p.describe()));
+            }
+            let post = n.node_state(&xr).map(read_spec);
+            if let (Some(pre), Some(post)) = (pre, post) {
+                if (post.gc, post.max) < (pre.gc, pre.max) {
+                    return vio("C18/frontier-lowered-by-gc-after-catch-up", format!("tombstone GC after a catch-up call lowered the frontier {:?} -> {:?}", (pre.gc, pre.max), (post.gc, post.max)));
+                }
+            }
+        }
         if passed_guards {
             tally.nontrivial(str_hash(&format!("{case:?}")));
             tally.label("passed_guards");
